@@ -59,10 +59,26 @@ package keeper
 // verified here (C05 is not claimed); callers only rely on the frame below: they write reporter and staking state
 // and the two staking pool accounts, nothing else.
 
-//@ func (k Keeper).ReturnSlashedTokens(ctx, amt, hashId) (err)
+// drec(h): the per-backer record of the stake escrowed for dispute h.
+//@ define drec(h) = reporter.DisputedDelegationAmounts[bytes(h)]
+
+// GetBondedValidators walks the staking module's power index (a raw store iterator, not modelled): trusted read.
+//@ func (k Keeper).GetBondedValidators(ctx, max) (vals, err)
 //@ trusted
+
+//@ func (k Keeper).ReturnSlashedTokens(ctx, amt, hashId) (err)
+//@ requires [record_well_formed] has(reporter.DisputedDelegationAmounts, bytes(hashId)) ==> drec(hashId).Total > 0 && forall j in [0, len(drec(hashId).TokenOrigins)) :: drec(hashId).TokenOrigins[j] != nil
 //@ modifies reporter.*, staking.*, bank.bal
 //@ ensures [only_pool_accounts_touched] forall a addr :: a != module("bonded_tokens_pool") && a != module("not_bonded_tokens_pool") ==> bank.bal[a] == old(bank.bal[a])
+//@ ensures [returned_stake_is_delegated_from_the_bonded_pool] called(Delegate) ==> arg(Delegate, tokenSrc) == 3 && !arg(Delegate, subtractAccount)
+//@ ensures [without_a_purse_every_backer_gets_back_exactly_what_was_taken] err == nil && amt <= old(drec(hashId).Total) ==> argsum(Delegate, bondAmt) == old(tsum(drec(hashId).TokenOrigins, len(drec(hashId).TokenOrigins)))
+//@ ensures [record_is_consumed] err == nil ==> !has(reporter.DisputedDelegationAmounts, bytes(hashId))
+//@ ensures [unknown_dispute_rejected] !old(has(reporter.DisputedDelegationAmounts, bytes(hashId))) ==> err != nil && nothing_written()
+//@ loop 0 "for _, source := range snapshot.TokenOrigins"
+//@ loop 0 invariant [returned_stake_is_delegated_from_the_bonded_pool] called(Delegate) ==> arg(Delegate, tokenSrc) == 3 && !arg(Delegate, subtractAccount)
+//@ loop 0 invariant [returned_so_far] amt <= old(drec(hashId).Total) ==> argsum(Delegate, bondAmt) == old(tsum(drec(hashId).TokenOrigins, $i))
+//@ loop 0 invariant [only_pool_accounts_touched] forall a addr :: a != module("bonded_tokens_pool") && a != module("not_bonded_tokens_pool") ==> bank.bal[a] == old(bank.bal[a])
+//@ loop 0 invariant [record_untouched_while_returning] reporter.DisputedDelegationAmounts == old(reporter.DisputedDelegationAmounts)
 
 //@ func (k Keeper).FeeRefund(ctx, hashId, amt) (err)
 //@ trusted
